@@ -171,8 +171,8 @@ def run(tier, seed):
             if e.get("crash"):
                 chk.violation("driver crashed on %s: %s" % (json.dumps(e)[:400], e["crash"]), e)
             elif not v["impl"]:
-                nfail += 1
-                if nfail <= 8 or k:
+                nfail += 0 if k else 1        # keyed (open finding) failures do not use up the report budget
+                if k or nfail <= 8:
                     chk.violation("%s: written octets %r (refusals %s, closed=%s) do not parse as exactly the caller's message; "
                                   "reference parse: %s; arguments %s" % (
                                       kind, e["raw"][:400], e["rc"], e["closed"], json.dumps(v["parsed"])[:700],
